@@ -141,14 +141,16 @@ BUILT = {
         text="Oracle: spec/Lang.tla, a big-step reference interpreter of the documented rules (static lexical scoping "
              "with a fresh scope per call, per loop iteration and clause, per while iteration, per catch clause; := and "
              "= rules; break/continue/return/throw as control results that loops, calls and try absorb or decrement; "
-             "yield, yield k: v, into with catamorphisms; short circuits; defaults and splats). TLC explores every "
-             "history of <=3 (quick) / 4 (thorough) statements over a 39-statement scoping/closure/loop vocabulary and "
+             "yield, yield k: v, into with catamorphisms; short circuits; defaults and splats; switch with arm scopes and "
+             "literal / literally / tuple patterns; eval in the scope of the call). TLC explores every history of 3 "
+             "statements (thorough: also 4 over seeded sub-vocabularies) over a 50-statement vocabulary and "
              "every transition is replayed in the real interpreter (value, printed output, outcome class, all tracked "
              "globals). Trace validation: seeded random programs (nested multi-clause loops, guards, mid-loop "
              "declarations, index iteration, multi-level break/continue with values, return, try/catch, logging "
-             "short-circuit leaves, closures escaping their scope or created per iteration, shadowing and "
-             "redeclaration) run statement by statement and are re-executed by the specification.",
-        note="eval, import, switch patterns (C12) and struct definitions are outside Lang; catch handlers in random "
+             "short-circuit leaves, closures escaping their scope or created per iteration, forward references, local "
+             "recursion, switch, eval of a statement's own text, shadowing and redeclaration) run statement by statement "
+             "and are re-executed by the specification.",
+        note="import and the richer pattern forms (C12) are outside Lang; catch handlers in random "
              "programs do not inspect the caught value (error text is unspecified); integers stay below 2^30. Trusted: "
              "TLC, the source printer, harness projection.",
         technique="TLA+ reference interpreter (Lang) + TLC bounded exploration of statement histories with replay of every "
@@ -212,13 +214,18 @@ BUILT = {
              "(freeze L)(args), and (freeze L)(args) again after every outer variable and function was reassigned "
              "(plus L(args) afterwards) - value, printed output, outcome class and globals must equal the "
              "specification's prediction, and freeze must fail exactly when the specification says so. In addition "
-             "TLC explores every history of <=3/4 statements over a 25-statement freeze vocabulary (free variables "
-             "and functions, later reassignment, unbound names, writes to outer variables, local shadowing, loops / "
-             "try / while / nested lambdas / defaults inside frozen code) and every transition is replayed.",
+             "TLC explores every history of 3 statements (thorough: 4 over seeded sub-vocabularies) over a "
+             "50-statement freeze vocabulary (free variables and functions, later reassignment, unbound names, writes "
+             "to outer variables, local shadowing incl. names that are loop- / arm-local, try-body locals seen by the "
+             "handler, multi-clause for headers, switch with literally-patterns, operator chains whose precedences "
+             "are reassigned later, a locally rebound prefix minus, loops / while / nested lambdas / defaults) and "
+             "every transition is replayed.",
         note="Bodies come from the C05 program generator restricted to declare-before-use (names declared in one branch "
              "of an if are not used outside it: their boundness is path dependent). Operators inside frozen code keep "
-             "being resolved by name (rebinding operators / precedences is not generated). Known finding: a local "
-             "declaration whose initialiser reads the outer variable it shadows.",
+             "are builtin operators (a rebound `-` and reassigned precedences of + and * are covered by templates). Forward "
+             "references are not generated in frozen code (free at freeze time by construction). Known findings: a "
+             "local declaration whose initialiser reads the outer variable it shadows; a `literally e` inside a switch "
+             "pattern that names a variable the same pattern binds.",
         technique="TLA+ definition of freeze as a translation on Lang ASTs + three-way translation validation of generated "
                   "lambdas by TLC trace validation + TLC bounded exploration of freeze statement histories with replay"),
     "C12": dict(
@@ -236,8 +243,10 @@ BUILT = {
              "bindings, the arm that ran and `x is T` for every annotated name; a seeded driver adds deeper random "
              "patterns and 25-30 step assignment histories that Trace_Pattern re-computes.",
         note="Unspecified and not judged: multi-entry dict iteration order, numeric operator patterns on non-integers, "
-             "comparison chains on non-reals, negative multipliers, duplicate names in one pattern. Known finding: an `or` "
-             "pattern whose first alternative fails after declaring a name leaves it declared.",
+             "comparison chains on non-reals, negative multipliers, duplicate names in one pattern, what a failing indexed "
+             "update leaves of a stream-valued variable. Known findings: an `or` pattern whose first alternative fails "
+             "after declaring a name leaves it declared (seen as a raise or as a stray binding); a top-level comma "
+             "sequence on the left of := ignores defaults.",
         technique="TLA+ spec (Pattern/Types) + TLC bounded enumeration with replay of every (pattern, value) pair / switch / "
                   "annotated-variable transition + TLC trace validation of random patterns and assignment histories"),
     "C14": dict(
